@@ -237,6 +237,10 @@ func genC10Cases(tier string, rng *Rng) {
 		tickRes = runCases(tickCases, 64)
 		close(tickDone)
 	}()
+	// (0) the convenience layer (GetURLTimeout): sequentially, the result-channel pool is process-wide
+	for _, c := range genC10URL(tier, NewRng(rng.U64())) {
+		runOp(c)
+	}
 	seq := func(max, wait int, qs []c10Req) {
 		a := []string{"c10seq", itoa(max), itoa(wait), itoa(len(qs))}
 		for _, q := range qs {
